@@ -109,6 +109,8 @@ type Encoder struct {
 	monitor    monitorHooks
 	held       []heldMonitor
 	lockSites, unlockSites []lockSite
+	frozen     []frozenLoc
+	curCall    *ssa.CallCommon
 	primary    bool
 	dual       bool
 	wtSeen     map[string]bool
